@@ -103,15 +103,18 @@ def run(ctx: Ctx) -> None:
 
     # (3b) in-situ DMRG
     situ = pmap(kc.insitu_run, insitu_tasks(ctx))
-    for s in situ:
-        if s["stats"]["n_exit"] == 0:
-            raise MachineryError(f"no kmin_exit hook event in an in-situ DMRG run: {s['spec']} (exception {s['exc']})")
-        if s["exc"] not in (None, "RecursionError"):
-            raise MachineryError(f"in-situ run failed for an unrelated reason ({s['exc']}): {s['spec']}")
     ctx.coverage["in_situ"] = [{"backend": s["spec"]["backend"], "cfg": s["spec"].get("cfg"), "outcome": s["exc"] or "returned", **s["stats"]} for s in situ]
 
     j1 = kc.judge(ctx, "kmin", real_results, "paths")
     j2 = kc.judge(ctx, "kmin", rand_results, "random")
+    for s in situ:
+        broken = s["exc"] not in (None, "RecursionError") or s["stats"]["n_exit"] == 0
+        if broken and ctx.n_violations + ctx.n_known > 0:
+            # the kernel already violates the property on direct calls: an in-situ run that dies is a consequence
+            ctx.notes.append(f"in-situ run {s['spec']['backend']} {s['spec'].get('cfg')} ended with {s['exc']} after {s['stats']['n_exit']} Krylov exits")
+        elif broken:
+            raise MachineryError(f"in-situ run unusable (exception {s['exc']}, {s['stats']['n_exit']} kmin_exit events): {s['spec']}")
+    situ = [s for s in situ if s["exc"] in (None, "RecursionError") and s["stats"]["n_exit"] > 0]
     j3 = kc.judge(ctx, "kmin", situ, "insitu")
     ctx.coverage["trace_verdicts"] = {"paths": j1, "random": j2, "insitu": j3}
 
@@ -147,7 +150,8 @@ def run(ctx: Ctx) -> None:
     ex = next((r for r in rand_results if r["outcome"] == "raised"), None)
     if ex:
         ctx.sample({"spec": ex["spec"], "record": ex["rec"], "outcome": ex["outcome"], "exception": ex["exc"]})
-    ctx.sample({"in_situ": situ[0]["spec"], "stats": situ[0]["stats"], "events_head": situ[0]["events"][:3]})
+    if situ:
+        ctx.sample({"in_situ": situ[0]["spec"], "stats": situ[0]["stats"], "events_head": situ[0]["events"][:3]})
     ctx.coverage["rule"] = (
         "TLC: all control paths and residual order patterns for max_krylov_dim <= 6, max_restarts <= 3 (exhaustive); real code: one case per "
         "instance (spectrum class, dimension, seed, tolerances, max_krylov_dim, max_restarts, entry point, start vector kind); non-trivial = "
